@@ -698,8 +698,10 @@ def _reset(ctx, prog):
            x.args[0].endswith("DEFAULT_SETTINGS_DICT")]
     stores = keyed_writes(r)
     ok = False
+    sw = False      # the store iterates the subset itself: its guard is read
     if len(stores) == 1 and stores[0][0] is not None:
         k, v, guard, e = stores[0]
+        sw = k.op == "elem" and k.args[0] is tm.param("parameter_subset")
         from_default = v.op == "sub" and v.args[1] is k and \
             v.args[0].op in ("global", "named") and \
             v.args[0].args[0].endswith("DEFAULT_SETTINGS_DICT")
@@ -715,7 +717,7 @@ def _reset(ctx, prog):
            "reset(subset): only keys of the subset that exist in the "
            "defaults are written, each from DEFAULT_SETTINGS_DICT" if ok
            else "reset(subset) does not restore exactly the named keys from "
-                "the defaults", key="C18.3:subset")
+                "the defaults", key="C18.3:subset", evidence=bool(sw))
     w = [e for e in r.of_kind("call")
          if (e.data.get("name") or "").endswith("write_to_json_file")]
     full = [e for e in w if any(
@@ -727,10 +729,30 @@ def _reset(ctx, prog):
     ok = len(full) == 1 and any(
         a.op == "cmp" and a.args[1] is tm.param("parameter_subset")
         for a in tm.atoms(full[0].live))
+    if not ok:
+        # one write for both cases: the written dict is a conditional whose
+        # alternative under `subset is None / file missing` is the defaults
+        for e in w:
+            d_ = (e.data["bound"] or {}).get("dictionary")
+            alts_ = tm.strip_ite(d_) if d_ is not None else []
+            if len(alts_) > 1 and any(
+                    a.op in ("global", "named") and
+                    str(a.args[0]).endswith("DEFAULT_SETTINGS_DICT")
+                    for a in alts_) and d_.op == "ite" and any(
+                    a.op == "cmp" and a.args[1] is
+                    tm.param("parameter_subset")
+                    for a in tm.atoms(d_.args[0])):
+                ok = True
     ctx.ob("C18.3", f, ok,
            "reset(): writes exactly DEFAULT_SETTINGS_DICT" if ok else
            "full reset does not write the defaults as they are",
-           key="C18.3:full")
+           key="C18.3:full",
+           # evidence: a write of something that is not the defaults object
+           # under the full-reset condition; no recognisable write at all is
+           # not evidence
+           evidence=bool(w) and all(
+               ((e.data["bound"] or {}).get("dictionary") or tm.NONE).op
+               not in ("ite", "loopout", "named", "global") for e in w))
 
 
 def _upgrade_sources(prog):
